@@ -358,7 +358,7 @@ pub fn run(r: &mut Runner) -> &'static str {
     r.rule = "inputs: byte slices as TLV sections - ALL strings over {00,01,02,03,04,FF} up to a length bound, well-formed lists (value lengths 0,1,255..257,65535,random) with truncations \
               at and around every item boundary, random short and long sections - and the TLV sections of accepted headers; oracle: the textbook walk R-TLV item by item \
               (kind, value bytes, value POSITION in the borrowed slice, one error item of the right kind, then None three more times). \
-              non-trivial = at least 2 items, or an error after at least 1 item, or a value of >= 256 bytes; distinct by SipHash of the section"
+              non-trivial = at least 2 items, or an error after at least 1 item, or a value of >= 256 bytes; distinct by SipHash of the section Added later: the walk driven through nth / skip / step_by / count / last / fold / collect / clones with size_hint checked first, sections that begin with a nested v2 header, sections of copies (to_owned, clone_from), reused read buffer."
         .into();
     let n = r.n(200_000, 3_000_000);
     r.random("c11.slices", n, 160, &gen_slice, &|x: &Vec<u8>, st: &mut Stats| crate::engine::in_arena(x, |v| judge_slice(v, st)));
